@@ -1,6 +1,6 @@
 """Internet Relay Chat message"""
 
-from .utils import parsemsg
+from .utils import joinprefix, parsemsg
 
 
 class Error(Exception):
@@ -28,9 +28,11 @@ class Message:
         if len(s) > 512:
             raise Error('Message must not be longer than 512 characters')
 
-        prefix, command, args = parsemsg(s)
+        (nick, user, host), command, args = parsemsg(s)
 
-        return Message(command, *args, prefix=prefix)
+        if nick is None:
+            return Message(command, *args)
+        return Message(command, *args, prefix=nick if user is None else joinprefix(nick, user, host))
 
     def __bytes__(self):
         return str(self).encode(self.encoding)
